@@ -9,27 +9,27 @@ FIXES = subprocess.run(['git', '-C', '/repo', 'log', '--format=%h %s', 'bbece76.
 CHECKS = {
  'C01': dict(
    technique='abstract interpretation of the session layer (own forking interpreter over the AST, interval refinement, no solver): complete (event,state) reaction table extracted from source and compared cell by cell with an RFC 4271 8.2.2 profile; wire-dispatch and establishment-typestate rules on the same table',
-   text='Static rule discharge: for every FSM state and every entry point (operator command, each timer callback, Twisted connection callbacks, every input class of parse_buffer) all paths of the handler code are extracted and each resulting cell (messages with code/subcode, close, next state) is compared with the RFC profile. Decides the per-event reaction for all (state,event) pairs, hence for every history in the single-connection regime, because handlers read only the state and a closed set of atoms. Does not decide timing or reactor interleavings. Added: an error close to Idle carries a restart token exactly when automatic restart is allowed.',
+   text='Static rule discharge: for every FSM state and every entry point (operator command, each timer callback, Twisted connection callbacks, every input class of parse_buffer) all paths of the handler code are extracted and each resulting cell (messages with code/subcode, close, next state) is compared with the RFC profile. Decides the per-event reaction for all (state,event) pairs, hence for every history in the single-connection regime, because handlers read only the state and a closed set of atoms. Does not decide timing or reactor interleavings. Added: an error close to Idle carries a restart token exactly when automatic restart is allowed. The ConnectRetryTimer is off whenever OpenSent is entered; constant-table lookups (.get on module dictionaries) and attribute access on None are modelled, so an exception swallowed by the catch-all of parse_buffer shows as a message that is dispatched to nobody.',
    design='DESIGN.md section 3 C01, Appendix A/B',
    note='Trusted: CPython ast; the Twisted model of sa/session.py (buildProtocol, callFromThread, loseConnection ends in connectionLost); BGPTimer primitives (shape checked by C03 R03.g); the transcribed RFC profile in sa/profile.py. Decoder loops abstracted to 0/1 iteration.'),
  'C02': dict(
    technique='restart-token must-analysis on the extracted reaction table (abstract interpretation of fsm.py/factory.py/protocol.py) + who-may-write scan of the operator flag',
-   text='Static rule discharge of the structural necessary condition of self-healing: on every non-operator path of every (event,state) cell that ends in Idle, or that consumes a pending restart, a reconnection is pending afterwards (idle-hold timer armed, connect started, or close requested whose connectionLost re-arms it); the restart chain is guarded by nothing but the operator flag, which only manual start/stop write. By induction over events this gives "never stuck" for every history; the numeric time bound and "stays up" are not decided. Added: the TCP-loss cells of the RFC profile are evaluated in every state (R02.g).',
+   text='Static rule discharge of the structural necessary condition of self-healing: on every non-operator path of every (event,state) cell that ends in Idle, or that consumes a pending restart, a reconnection is pending afterwards (idle-hold timer armed, connect started, or close requested whose connectionLost re-arms it); the restart chain is guarded by nothing but the operator flag, which only manual start/stop write. By induction over events this gives "never stuck" for every history; the numeric time bound and "stays up" are not decided. Added: the TCP-loss cells of the RFC profile are evaluated in every state (R02.g). The no-connection regimes include the one in which the previous connection\'s close was already reported (estab_protocol cleared) while the FSM still references the old protocol object.',
    design='DESIGN.md section 3 C02',
    note='Same trusted base as C01. Active is shown transient on every run (R02.f); if that stops holding its rows lose their exemption.'),
  'C03': dict(
    technique='timer-arming rules on the extracted reaction table with interval partition of the hold time (H = 0 / H > 0), symbolic check of the negotiated values (min, /k), AST shape rule for BGPTimer',
-   text='Static rule discharge: keepalive period = negotiated hold / k (k >= 3) and hold = min(configured, proposed) on every accepting path; keepalive expiry sends KEEPALIVE and re-arms iff H > 0; KEEPALIVE/UPDATE restart the hold timer; no timer is ever armed with H = 0; hold expiry sends NOTIFICATION (4,0) and closes; OPEN arms the 240 s timer; BGPTimer.reset/cancel have the semantics the rest relies on. Emission times, "at that moment" and same-instant orderings are not decided. Added: at wire level every delivered KEEPALIVE/UPDATE in Established (tolerated malformed UPDATE included) restarts the hold timer.',
+   text='Static rule discharge: keepalive period = negotiated hold / k (k >= 3) and hold = min(configured, proposed) on every accepting path; keepalive expiry sends KEEPALIVE and re-arms iff H > 0; KEEPALIVE/UPDATE restart the hold timer; no timer is ever armed with H = 0; hold expiry sends NOTIFICATION (4,0) and closes; OPEN arms the 240 s timer; BGPTimer.reset/cancel have the semantics the rest relies on. Emission times, "at that moment" and same-instant orderings are not decided. Added: at wire level every delivered KEEPALIVE/UPDATE in Established (tolerated malformed UPDATE included) restarts the hold timer. BGPTimer.reset passes the requested delay on unchanged.',
    design='DESIGN.md section 3 C03',
    note='Same trusted base as C01; reactor.callLater / DelayedCall semantics as documented by Twisted.'),
  'C12': dict(
    technique='connection-resource typestate on the extracted reaction table (incl. a second-connection regime), AST rule for connector retention, who-may-call rule for transport.write',
-   text='Static rule discharge of the mechanism the property relies on: the connector is retained, a reconnect from a non-Idle state aborts the pending attempt and closes the tracked connection first, a new protocol instance replaces the tracked one only after the old one was closed, and every write goes to the tracked transport. Today the first three fail (9 known findings); the check guards the rest and reports any new instance.',
+   text='Static rule discharge of the mechanism the property relies on: the connector is retained, a reconnect from a non-Idle state aborts the pending attempt and closes the tracked connection first, a new protocol instance replaces the tracked one only after the old one was closed, and every write goes to the tracked transport. Today the first three fail (9 known findings); the check guards the rest and reports any new instance. Every path that starts a connect leaves the state machine in Connect/Active (R12.g).',
    design='DESIGN.md section 3 C12',
    note='Same trusted base as C01. Schedule clauses are not decided.'),
  'C13': dict(
    technique='operator-gate rules on the extracted reaction table: stop row per state with per-timer final state, Idle-exit gate (dominance by the allow_automatic_start atom on every path), manual-start row, REST call-site scan',
-   text='Static rule discharge: manual stop in every state sends Cease iff Established, leaves every BGPTimer off, closes, forbids automatic start and ends in Idle; from Idle no path leaves, connects or emits a message except manual start or under the operator flag (with R02.d this gives, by induction, silence after stop for every continuation); manual start connects at once from Idle and is a no-op elsewhere. One known finding (late connect after stop).',
+   text='Static rule discharge: manual stop in every state sends Cease iff Established, leaves every BGPTimer off, closes, forbids automatic start and ends in Idle; from Idle no path leaves, connects or emits a message except manual start or under the operator flag (with R02.d this gives, by induction, silence after stop for every continuation); manual start connects at once from Idle and is a no-op elsewhere. One known finding (late connect after stop). The REST stop helper reaches factory.manual_stop() unconditionally.',
    design='DESIGN.md section 3 C13',
    note='Same trusted base as C01; REST thread-safety not decided.'),
  'C04': dict(
@@ -54,7 +54,7 @@ CHECKS = {
    note='Same trusted base as C01; effects inside the internal-queue drain loop are seen for one iteration.'),
  'C08': dict(
    technique='ByteLen analysis: every construct function abstractly interpreted to symbolic concatenations; linear-form equality between each len()-derived field and the bytes it covers; symbolic TLV-stream walker for literal lengths (tunnel encapsulation, capabilities), MP_REACH layout, attribute-header/flag table rule, finite partition of prefix widths',
-   text='Static rule discharge on all 65 construct functions: message headers (marker, total length, type), attribute headers (RFC category flags, type code, extended-length bit iff 2-octet length, length = value size), every len()-computed field equals the run of bytes that follows it on every path (0/1 loop iteration, linear arithmetic), literal TLV lengths equal literal bodies, prefixes occupy ceil(len/8) octets for every length, and no construct path returns None silently. Value-range overflow and the 4096 limit are not decided. Added: every returning path of every message-level constructor yields exactly marker + length(total) + type + body; fixed-width fields (PMSI label = 3 octets) on every path.',
+   text='Static rule discharge on all 65 construct functions: message headers (marker, total length, type), attribute headers (RFC category flags, type code, extended-length bit iff 2-octet length, length = value size), every len()-computed field equals the run of bytes that follows it on every path (0/1 loop iteration, linear arithmetic), literal TLV lengths equal literal bodies, prefixes occupy ceil(len/8) octets for every length, and no construct path returns None silently. Value-range overflow and the 4096 limit are not decided. Added: every returning path of every message-level constructor yields exactly marker + length(total) + type + body; fixed-width fields (PMSI label = 3 octets) on every path. The 1-octet attribute length form is reached for at most 255 octets; an accumulator that is grown and emitted inside a loop is reset inside that loop.',
    design='DESIGN.md section 3 C08',
    note='Trusted: struct.calcsize, netaddr .packed being 4 or 16 octets, transcribed RFC flag categories / TLV grammars in sa/rules/c08.py.'),
  'C09': dict(
@@ -69,32 +69,32 @@ CHECKS = {
    note='Trusted: interval transfer functions of sa/prims.py; helper return values are taken from one loop iteration (their lower bounds only grow with more iterations).'),
  'C06': dict(
    technique='abstract interpretation of Update.construct (every built part present in the result on every path), finite partition of IPv4 prefix widths on encoder and decoder, signed-format scan, per-attribute value layout vs RFC layout table, dispatch-table symmetry',
-   text='Static rule discharge of necessary conditions of the round trip: no part of the request is dropped or replaced by None, encoder and decoder use ceil(m/8) octets for every m in 0..32, no signed wire format, each standard attribute encoder writes the field widths its decoder reads (RFC layout table), every encoded type code has the same codec class on the decode side. Round-trip equality over the value space is NOT decided (not a static property); breaking any of these clauses breaks the round trip. Added: no standard attribute codec sorts/reverses/de-duplicates a collection of input elements; every well-known community name the decoder renders is accepted back.',
+   text='Static rule discharge of necessary conditions of the round trip: no part of the request is dropped or replaced by None, encoder and decoder use ceil(m/8) octets for every m in 0..32, no signed wire format, each standard attribute encoder writes the field widths its decoder reads (RFC layout table), every encoded type code has the same codec class on the decode side. Round-trip equality over the value space is NOT decided (not a static property); breaking any of these clauses breaks the round trip. Added: no standard attribute codec sorts/reverses/de-duplicates a collection of input elements; every well-known community name the decoder renders is accepted back. AS_PATH switches to the extended length form exactly at 256 octets (interval of the packed length per path); no comparison in these codecs splits a range between 2^k-2 and 2^k-1.',
    design='DESIGN.md section 3 C06',
    note='Trusted: RFC layout table in sa/rules/c06.py; interpreter model of struct/slices.'),
  'C07': dict(
    technique='AFI/SAFI dispatch tables extracted from both directions and compared, finite partition of NLRI prefix widths, abstract interpretation of ESI/RD/label encoders for exact record sizes and the bottom-of-stack bit, type-tag set comparison',
-   text='Static rule discharge of necessary conditions: every family the MP_REACH/MP_UNREACH encoders emit is decoded by the same codec class, NLRI prefix helpers emit ceil(m/8) octets from full-width addresses, ESI is 10 octets for every type, RD 8, labels 3 with the S bit on the last one, RD/ESI type tags handled on both sides. Value equality is not decided. Added: the decoder hands every ESI value octet the encoder writes to a conversion (read-coverage log of the interpreter), the flowspec operator octet is folded for all 256 values against the RFC 5575 bit fields and every length the encoder accepts maps to the code the decoder maps back, no NLRI codec reorders or de-duplicates input collections. Five known findings.',
+   text='Static rule discharge of necessary conditions: every family the MP_REACH/MP_UNREACH encoders emit is decoded by the same codec class, NLRI prefix helpers emit ceil(m/8) octets from full-width addresses, ESI is 10 octets for every type, RD 8, labels 3 with the S bit on the last one, RD/ESI type tags handled on both sides. Value equality is not decided. Added: the decoder hands every ESI value octet the encoder writes to a conversion (read-coverage log of the interpreter), the flowspec operator octet is folded for all 256 values against the RFC 5575 bit fields and every length the encoder accepts maps to the code the decoder maps back, no NLRI codec reorders or de-duplicates input collections. Five known findings. Every returning path of an EVPN route-type decoder yields every key its encoder requires; the IPv6 link-local next hop is reported exactly for a 32-octet next hop on every path; no comparison splits a range between 2^k-2 and 2^k-1.',
    design='DESIGN.md section 3 C07',
    note='Assumes MAC addresses have six groups; padded-hex idiom recognised structurally.'),
  'C14': dict(
    technique='abstract interpretation of Open.parse (result dictionary on every normal path), struct-format agreement between parse and construct of each message, finite partition of KEEPALIVE body lengths, capability code tables vs IANA and encoder/decoder branch sets',
-   text='Static rule discharge: Open.parse returns the dictionary with and without optional parameters, the fixed parts use the same formats and offsets both ways, KEEPALIVE is 19 octets and only an empty body is accepted, capability constants equal the IANA codes and every emitted capability has an encoder and a decoder branch, unknown codes are kept. Value equality is not decided. Added: the capability dispatch is total over codes 0..255 (finite partition); NOTIFICATION construct packs the code/subcode/data given on every path.',
+   text='Static rule discharge: Open.parse returns the dictionary with and without optional parameters, the fixed parts use the same formats and offsets both ways, KEEPALIVE is 19 octets and only an empty body is accepted, capability constants equal the IANA codes and every emitted capability has an encoder and a decoder branch, unknown codes are kept. Value equality is not decided. Added: the capability dispatch is total over codes 0..255 (finite partition); NOTIFICATION construct packs the code/subcode/data given on every path. No comparison in these codecs splits a range between 2^k-2 and 2^k-1 (AS 65535 is a 2-octet AS).',
    design='DESIGN.md section 3 C14',
    note='Trusted: IANA table in sa/rules/c14.py.'),
  'C15': dict(
    technique='AST dataflow rules over all 41 decoder loops: window discipline (no unbounded cursor suffix to an element decoder once the extent is known), no whole-buffer predicate, no loop-carried variable (def-use order), branch read/write independence of parse_attributes with the deferred BGP-LS consumer, ord-of-int-index scan',
-   text='Static rule discharge of the structural conditions that make list decoding compositional and attribute order irrelevant. Three known findings (label stack window x2, ::/0 pair). Equality on concrete pools is not decided. Added: result lists are write-only inside decoder loops; a loop test len(cursor) > K must not stop while a minimal element still fits.',
+   text='Static rule discharge of the structural conditions that make list decoding compositional and attribute order irrelevant. Three known findings (label stack window x2, ::/0 pair). Equality on concrete pools is not decided. Added: result lists are write-only inside decoder loops; a loop test len(cursor) > K must not stop while a minimal element still fits. Loop-carried state is decided path-sensitively (must-definition walk of one iteration); no type branch of parse_attributes rebinds a session parameter.',
    design='DESIGN.md section 3 C15',
    note='Syntactic def-use on loop bodies; comprehension variables excluded.'),
  'C16': dict(
    technique='decorator-stack rule over every Flask route (AST), shape rules for the password callback and the establishment gate, reachability of BGP sends through yabgp.api.utils, forwarded-argument dataflow of the update view',
-   text='Static rule discharge: every /peer/ route has auth.login_required directly inside blueprint.route, the password callback returns the configured password only for the configured user, every view that can reach a BGP send is gated by makesure_peer_establish (which calls the view only for Established), the update view forwards NLRI/withdraw unchanged and touches attributes only as documented, and success is reported only from the send result on the tracked protocol. Flask / Flask-HTTPAuth semantics are trusted. Added: no /peer/ route hands OPTIONS to the view (Flask-HTTPAuth does not authenticate OPTIONS).',
+   text='Static rule discharge: every /peer/ route has auth.login_required directly inside blueprint.route, the password callback returns the configured password only for the configured user, every view that can reach a BGP send is gated by makesure_peer_establish (which calls the view only for Established), the update view forwards NLRI/withdraw unchanged and touches attributes only as documented, and success is reported only from the send result on the tracked protocol. Flask / Flask-HTTPAuth semantics are trusted. Added: no /peer/ route hands OPTIONS to the view (Flask-HTTPAuth does not authenticate OPTIONS). api.utils.send_update hands attr/nlri/withdraw to protocol.send_update unchanged on every path; gate and readiness predicate are judged by structural path conditions, so guard clauses and named locals do not matter.',
    design='DESIGN.md section 3 C16',
    note='Trusted: Flask decorator order semantics, HTTPBasicAuth.get_password / login_required.'),
  'C17': dict(
    technique='table closure over folded constant tables and the if/elif chains of decoder, encoder and both REST views; structural comparison of the two recombination copies; normaliser/lookup agreement for well-known names; abstract interpretation of ExtCommunity.construct per code for the 8-octet size',
-   text='Static rule discharge of necessary conditions: every text name the decoder renders is translated by both views to a code the encoder handles, the name tables are inverse, the two view copies have identical arms, every well-known community name survives the encoder lookup, no decoder path raises on every input, every code encodes to 8 octets. Value-level identity of the text is not decided. Added: per extended-community code the decoder reads every value octet in which the encoder places a non-constant; raise-guards of the community encoders do not reject the largest value of a field.',
+   text='Static rule discharge of necessary conditions: every text name the decoder renders is translated by both views to a code the encoder handles, the name tables are inverse, the two view copies have identical arms, every well-known community name survives the encoder lookup, no decoder path raises on every input, every code encodes to 8 octets. Value-level identity of the text is not decided. Added: per extended-community code the decoder reads every value octet in which the encoder places a non-constant; raise-guards of the community encoders do not reject the largest value of a field. The boundary rule also covers the REST recombination code (65535 is a 2-octet AS administrator).',
    design='DESIGN.md section 3 C17',
    note='Trusted: constant folding of yabgp/common/constants.py by sa/front.py.'),
  'C19': dict(
@@ -104,7 +104,7 @@ CHECKS = {
    note='Same trusted base as C01; the radix tree mirror is outside the statement.'),
  'C20': dict(
    technique='AST must-call / pairing rules on DefaultHandler (one write_msg per callback, write-flush-fsync-increment pairing and order), bytes-payload source scan over the decoders, recovery-path exit and rotation rules',
-   text='Static rule discharge of the structural conditions; crash points cannot be enumerated statically. What holds: one line per event with keys t/seq/type/msg, flush+fsync and exactly one sequence increment per line, no other writer, resume at recovered+1 in append mode. What fails today (6 known findings): the record is streamed with json.dump (not atomic), decoders can put bytes into the payload, recovery exits on a torn tail, recovery ignores all but the newest file. Added: no return/raise before the single write_msg of a callback; recovery does not look for the last line in a window of fixed size.',
+   text='Static rule discharge of the structural conditions; crash points cannot be enumerated statically. What holds: one line per event with keys t/seq/type/msg, flush+fsync and exactly one sequence increment per line, no other writer, resume at recovered+1 in append mode. What fails today (6 known findings): the record is streamed with json.dump (not atomic), decoders can put bytes into the payload, recovery exits on a torn tail, recovery ignores all but the newest file. Added: no return/raise before the single write_msg of a callback; recovery does not look for the last line in a window of fixed size. write_msg calls nothing that replaces the per-peer file entry while it holds the fetched handle.',
    design='DESIGN.md section 3 C20',
    note='A crash-point enumeration is outside this technique; the atomic-line and recovery rules are necessary conditions of the crash clauses.'),
 }
